@@ -239,8 +239,6 @@ fn apply_run<S: Spec>(
     }));
     let verdict = if let Some(p) = &out.panic {
         Err(viol("panic", format!("Foca panicked: {p}")))
-    } else if out.wide_draw {
-        Err(viol("machinery:wide-draw", "RNG used other than through next_u32".into()))
     } else if matches!(ev, Ev::Sleep(_)) {
         Ok(())
     } else {
